@@ -183,17 +183,14 @@ Definition env_after (sp : subject) (st0 : storage) (h : hop) (env : list (N * b
 Definition revoked_state (env : list (N * bool)) (b : bundle) : option bool :=
   let c := b_cert b in if is_expired c then None else assoc_ser env (c_ser c).
 
-Definition spec_step (cfg : config) (sp : subject) (env : list (N * bool)) (st0 : storage) (h : hop) (o : obs) : bool :=
+(** the clauses that speak about states (storage before / after, what was cached, what a reload
+    returns) ... *)
+Definition spec_state (cfg : config) (sp : subject) (env : list (N * bool)) (st0 : storage) (h : hop) (o : obs) : bool :=
   let st1 := ob_st o in
-  let iss := issued_ok (ob_log o) in
   let ok := (ob_res o =? 0) && is_op h in
   (* success_bundle_complete: some issuer directory holds key, chain, metadata; key matches leaf;
      metadata and certificate name the subject *)
   (negb ok || existsb (fun i => match bundle_at st1 i (s_save sp) with Some b => good_bundle sp b | None => false end) (issuers cfg))
-  (* ... and it is what the issuer just returned, with the key that was in the CSR *)
-  && (negb ok || forallb (fun ik => match bundle_at st1 (fst ik) (s_save sp) with
-                                    | Some ((_, k, c, _) as b) => good_bundle sp b && N.eqb k (snd ik) && negb (cert_in st0 (c_ser c))
-                                    | None => false end) iss)
   (* load_roundtrip + newest_of_issuers_loaded: loading with the requested spelling yields the
      newest stored bundle, bytes intact (key matches) *)
   && (negb ok || match newest_bundle st1 cfg (s_save sp) with
@@ -205,24 +202,6 @@ Definition spec_step (cfg : config) (sp : subject) (env : list (N * bool)) (st0 
                               | Some b, Some sn => seen_eqb sn (seen_of_bundle b) && nlist_eqb (snd sn) [s_id sp]
                               | _, _ => false end
                  | _ => true end)
-  (* fresh_key_unless_reuse / reuse_keeps_key / compromised_key_never_reused *)
-  && forallb (fun ik =>
-       let k := snd ik in
-       if negb (reuse cfg) then generated (ob_log o) k
-       else match h with
-            | HRenew _ => match newest_bundle st0 cfg (s_load sp) with Some (_, k0, _, _) => N.eqb k k0 | None => false end
-            | HObtain => match first_key st0 (issuers cfg) (s_pre sp) with Some k0 => N.eqb k k0 | None => generated (ob_log o) k end
-            | HManage =>
-                match newest_bundle st0 cfg (s_load sp) with
-                | Some ((_, k0, _, _) as b0) =>
-                    match revoked_state env b0 with
-                    | Some true => true    (* judged by the clause below *)
-                    | _ => N.eqb k k0
-                    end
-                | None => match first_key st0 (issuers cfg) (s_pre sp) with Some k0 => N.eqb k k0 | None => generated (ob_log o) k end
-                end
-            | _ => true
-            end) iss
   (* compromised_key_never_reused: manage succeeded on a certificate revoked for key compromise
      => what is served afterwards does not use that key *)
   && (match h with
@@ -238,6 +217,35 @@ Definition spec_step (cfg : config) (sp : subject) (env : list (N * bool)) (st0 
           end
       | _ => true
       end).
+(** ... and the clauses that speak about the issuer calls and key generations in the log *)
+Definition spec_log (cfg : config) (sp : subject) (env : list (N * bool)) (st0 : storage) (h : hop) (o : obs) : bool :=
+  let st1 := ob_st o in
+  let iss := issued_ok (ob_log o) in
+  let ok := (ob_res o =? 0) && is_op h in
+  (* what the issuer just returned is stored, with the key that was in the CSR *)
+  (negb ok || forallb (fun ik => match bundle_at st1 (fst ik) (s_save sp) with
+                                    | Some ((_, k, c, _) as b) => good_bundle sp b && N.eqb k (snd ik) && negb (cert_in st0 (c_ser c))
+                                    | None => false end) iss)
+  (* fresh_key_unless_reuse / reuse_keeps_key *)
+  && forallb (fun ik =>
+       let k := snd ik in
+       if negb (reuse cfg) then generated (ob_log o) k
+       else match h with
+            | HRenew _ => match newest_bundle st0 cfg (s_load sp) with Some (_, k0, _, _) => N.eqb k k0 | None => false end
+            | HObtain => match first_key st0 (issuers cfg) (s_pre sp) with Some k0 => N.eqb k k0 | None => generated (ob_log o) k end
+            | HManage =>
+                match newest_bundle st0 cfg (s_load sp) with
+                | Some ((_, k0, _, _) as b0) =>
+                    match revoked_state env b0 with
+                    | Some true => true    (* judged by the state clause *)
+                    | _ => N.eqb k k0
+                    end
+                | None => match first_key st0 (issuers cfg) (s_pre sp) with Some k0 => N.eqb k k0 | None => generated (ob_log o) k end
+                end
+            | _ => true
+            end) iss.
+Definition spec_step (cfg : config) (sp : subject) (env : list (N * bool)) (st0 : storage) (h : hop) (o : obs) : bool :=
+  spec_state cfg sp env st0 h o && spec_log cfg sp env st0 h o.
 
 (** most_recently_issued_loaded (Recency.v): as long as every step's issuer answers are dated after
     all stored certificates (a forward history: judged on the oracle = input and the
